@@ -13,7 +13,7 @@ EXPLANATION = (
     "the whole buffer for two consecutive newlines, UTF-8 validation is applied to that piece minus the separator; the JSON layers call the inner "
     "decode exactly once and never touch the buffer; (R1) the task spawned per request sends exactly once on every path, and every sent object "
     "carries `id` = the dispatched request's id with exactly one of result/error; (R2) the future raced against the writer in the driver's select "
-    "awaits only the framed reader's next() and does nothing before it - all handler work is behind tokio::spawn; (W) every SinkExt::send goes "
+    "awaits only the framed reader's next() and does nothing before it - all handler work is behind tokio::spawn; (R6) the message decoder builds a (Custom)Request carrying the message's id exactly where the id is present and a (Custom)Notification where it is absent; (W) every frame is written with SinkExt::send (or feed + awaited flush); every SinkExt::send goes "
     "through a guard of the one Arc<Mutex<FramedWrite>>, is awaited while the guard is live and is not a raced select operand; one FramedWrite is "
     "constructed; nothing else writes to stdout; the encoder appends the text then two newlines; (P) panic discipline on codec/driver/logging bodies."
 )
@@ -31,6 +31,7 @@ def run(F, X, rep):
     t_id_type(F, X, rep)
     r4_dispatch_table(F, X, rep)
     r5_unknown_topic(F, X, rep)
+    r6_id_classification(F, X, rep)
     w(F, X, rep)
     p(F, X, rep)
 
@@ -367,6 +368,55 @@ def r5_unknown_topic(F, X, rep):
            detail="" if not bad else "a notification without subscriber makes dispatch fail at %s: the driver loop ends, requests in flight lose their reply and later ones are never read" % loc(bad[0][1]["sp"]))
 
 
+def r6_id_classification(F, X, rep):
+    rid = "C17-R6"
+    rep.rule(rid, "the message decoder classifies by the presence of `id`: every JsonRpc value built where the id is present is a (Custom)Request carrying exactly that id, every value built where it is absent is a (Custom)Notification - a request decoded as a notification is never answered")
+    import model_msgs as mm_
+
+    def id_fact(b, bi):
+        for fe, truth, _c in lib.variant_facts(b, X, bi):
+            if truth in (("Some",), ("None",)) and any(y[0] == "field" and y[1] == "id" for y in walk(strip(fe))):
+                return (strip(fe), truth)
+        return None
+
+    def callers(b):
+        return [(hb, c) for hb in F.code_bodies() if hb is not b and "src/cln_plugin/messages.rs" in hb.span.get("f", "") for c in hb.calls if (c.resolved or c.name) == b.cdef or c.name == b.cdef]
+
+    n = 0
+    for b, bi, s in F.aggregates("cln_plugin::messages::JsonRpc"):
+        if "src/cln_plugin/messages.rs" not in b.span.get("f", "") or "::test" in b.cdef:
+            continue
+        n += 1
+        fn = F.root_of(b)
+        var = s["rv"].get("variant")
+        facts = []
+        f0 = id_fact(b, bi)
+        if f0 is not None:
+            facts = [f0]
+        else:
+            # the arm's body was moved into a helper (`Some(id) => Self::request_from_value(id, v)`): what holds at its call sites
+            cs = callers(b)
+            facts = [id_fact(hb, c.bb) for hb, c in cs]
+            if not cs or any(f is None for f in facts):
+                facts = []
+        if not facts or len({f[1] for f in facts}) != 1:
+            rep.ob(rid, False, fn, "JsonRpc::%s is built under a test on the id" % var, where=loc(s["sp"]), detail="JsonRpc::%s is built on a path that does not depend on whether the message has an id" % var)
+            continue
+        present = facts[0][1] == ("Some",)
+        want = ("Request", "CustomRequest") if present else ("Notification", "CustomNotification")
+        ok = var in want
+        rep.ob(rid, ok, fn, "id %s => %s" % ("present" if present else "absent", "/".join(want)), where=loc(s["sp"]), how=var,
+               detail="" if ok else "a message %s id is decoded as JsonRpc::%s: %s" % ("with an" if present else "without", var, "the request's id is dropped and no reply with that id is ever written" if present else "a reply is produced for a notification"))
+        if ok and present:
+            e0 = strip(X.operand(b, s["rv"]["ops"][0]))
+            if f0 is None:
+                e0 = strip(mm_.expand_params(F, X, e0, depth=1))
+            okid = all(a[0] == "field" and a[1] == "0" and a[3] == "Some" and any(show(strip(a[4])) == show(f[0]) for f in facts) for a in alts(e0))
+            rep.ob(rid, okid, fn, "the request carries the message's own id", where=loc(s["sp"]), how=show(e0)[:80],
+                   detail="" if okid else "JsonRpc::%s carries id %s, not the id of the decoded message" % (var, show(e0)[:80]))
+    rep.anchor(rid, "JsonRpc values built by the message decoder", n, 4)
+
+
 def t_id_type(F, X, rep):
     rid = "C17-T"
     rep.rule(rid, "a request's id is carried as an arbitrary JSON value (JSON-RPC ids are strings or numbers): every `id` of the plugin's message types is serde_json::Value")
@@ -413,6 +463,18 @@ def w(F, X, rep):
         for s in ml.selects(b, X):
             israced = any(f is not None and f.bb == c.bb for f in s.futures or [])
             rep.ob(rid, not israced, fn, "send is not a select operand", where=c.loc, how="inside an arm body", detail="" if not israced else "the frame write is raced in a select")
+    # a frame only reaches the node once the writer is flushed: `send` = feed + flush; a bare feed / start_send leaves the reply in the
+    # FramedWrite buffer until somebody else happens to flush it
+    for b in F.code_bodies():
+        for c in b.calls:
+            if c.noise or c.name not in ("futures::SinkExt::feed", "futures::Sink::start_send", "futures::SinkExt::send_all"):
+                continue
+            if "src/cln_plugin/" not in b.span.get("f", "") or "FramedWrite" not in (c.full or ""):
+                continue
+            after = b.reach([c.bb])
+            fl = [x for x in b.calls if x.name in ("futures::SinkExt::flush", "futures::SinkExt::close") and x.bb in after and x.bb != c.bb and lib.await_of_call(b, x) is not None]
+            rep.ob(rid, bool(fl), F.root_of(b), "a buffered frame is flushed", where=c.loc, how=c.name.split("::")[-1] + (" + flush" if fl else ""),
+                   detail="" if fl else "the frame is written with %s and never flushed: the reply stays in the writer's buffer (send = feed + flush)" % c.name.split("::")[-1])
     fw = [(b, c) for b in F.code_bodies() for c in b.calls if c.name == "tokio_util::codec::FramedWrite::new"]
     # (a helper spliced into several callers shows the same source construction once per caller: count source sites)
     fwl = sorted({c.loc for _b, c in fw})
